@@ -15,9 +15,16 @@
   (`triggerK1`, `triggerK2`, evaluated step by step as `hazard`); the clauses about the
   learn handshake are therefore `…_partial`, their unrestricted forms are kept as
   `…_statement` and are refuted on concrete witnesses (`…_counterexample`).  The numeric
-  clauses hold without restriction.
+  clauses hold for every history, hazards included: `value_in_range_monotone` about the exact
+  value of the linear map, `emitted_int_in_range_monotone` / `emitted_float_in_range_monotone`
+  about the value that is actually sent (after the rounding to `float` and, for an `i` port,
+  the truncation to `int`).  An `i` port needs INTEGRAL bounds for that
+  (`int_port_fractional_bound_counterexample`).
 -/
 import RtoscModel.Proofs.MidiClauses
+import RtoscModel.Proofs.MidiRound
+import RtoscModel.Proofs.MidiRing
+import RtoscModel.Proofs.MidiClone
 set_option linter.unusedSimpArgs false
 namespace Rtosc.Midi
 
@@ -51,8 +58,13 @@ theorem other_steps_silent {P s op s' out} (h : step P s op = some (s', out))
     in the controller's half (coarse: upper 7 bits, fine: lower 7 bits) and some 7-bit `o`
     in the other half; the exact value `bijNum/2^17` of the linear map lies in
     `[min8/8, max8/8]` and is monotone in `val` (and in `o`).  `Cb.fire` rounds exactly this
-    number to `float` (and truncates it for an `i` port); the special case of an `i` port
-    with range 0..127 is `special_case_in_range_monotone`. -/
+    number to `float` (and truncates it for an `i` port): `emitted_int_in_range_monotone` and
+    `emitted_float_in_range_monotone` below carry range and monotonicity over to the value
+    that is sent; the special case of an `i` port with range 0..127 is
+    `special_case_in_range_monotone`.  `o` is the other half of the value slot as the realtime
+    half holds it; that it is the last value of the address's OTHER controller is shown at the
+    storage level only (`fine_composes_14bit`), across a `midi-bind` (`cloneValues`) it is
+    covered by the correspondence run and the oracle. -/
 theorem value_in_range_monotone {P s} (r : Reach P s) {id val s' m} (hv : val ≤ 127)
     (h : step P s (.cc id val) = some (s', [m])) :
     ∃ p k o, P[m.addr]? = some p ∧ s.rt.binding id = some (m.addr, k) ∧ o < 128 ∧
@@ -84,6 +96,83 @@ theorem special_case_in_range_monotone (a x y : Nat) (hx : x < 16384) (hy : y < 
     x / 128 ≤ y / 128 := by
   refine ⟨?_, by omega, Nat.div_le_div_right hxy⟩
   simp [Cb.fire, special_eq x hx]
+
+/-! ### The value that is sent (after rounding / truncation), and its type -/
+
+theorem bijNum_bitLen {mn mx : Int} {x : Nat} (h : mn ≤ mx) (hx : x ≤ 16384) (h1 : -8388608 ≤ mn)
+    (h2 : mx ≤ 8388608) : bitLen (bijNum mn mx x).natAbs ≤ 38 := by
+  obtain ⟨a, b⟩ := bijNum_range h hx
+  rw [bitLen_le_iff]
+  have : (2 : Nat) ^ 38 = 274877906944 := by decide
+  omega
+
+/-- **emitted_int_in_range_monotone** — "whose value lies within the parameter's [min,max] and
+    grows monotonically with v", for the `int` that an `i` port is actually sent: for INTEGRAL
+    bounds `lo ≤ hi` (`min8 = 8·lo`, `max8 = 8·hi`, `|·| ≤ 2^20`, every range the protocol can
+    spell) other than the 0..127 special case (`special_case_in_range_monotone`), the message
+    the callback writes for the 14-bit value `x` is `'i'`-typed, goes to the callback's address,
+    carries `(int)(float)(x/16384.0*(max-min)+min)` — which lies in `[lo, hi]` — and does not
+    decrease when `x` grows. -/
+theorem emitted_int_in_range_monotone {a : Nat} {lo hi : Int} (hlh : lo ≤ hi) (h1 : -1048576 ≤ lo)
+    (h2 : hi ≤ 1048576) (hspecial : ¬(lo = 0 ∧ hi = 127)) {x y : Nat} (hx : x < 16384) (_hy : y < 16384)
+    (hxy : x ≤ y) :
+    ∃ vx vy : Int, ((⟨a, true, 8 * lo, 8 * hi⟩ : Cb).fire x) = ⟨a, .int vx⟩ ∧
+      ((⟨a, true, 8 * lo, 8 * hi⟩ : Cb).fire y) = ⟨a, .int vy⟩ ∧ lo ≤ vx ∧ vx ≤ hi ∧ vx ≤ vy := by
+  refine ⟨truncF32OfDyadic (bijNum (8 * lo) (8 * hi) x) 17, truncF32OfDyadic (bijNum (8 * lo) (8 * hi) y) 17,
+    ?_, ?_, ?_⟩
+  · simp [Cb.fire]; omega
+  · simp [Cb.fire]; omega
+  · have hm : 8 * lo ≤ 8 * hi := by omega
+    obtain ⟨r1, r2⟩ := bijNum_range hm (x := x) (by omega)
+    have hb := bijNum_bitLen hm (x := x) (by omega) (by omega) (by omega)
+    have p17 : (2 : Int) ^ 17 = 131072 := by decide
+    obtain ⟨q1, q2⟩ := truncF32OfDyadic_range (num := bijNum (8 * lo) (8 * hi) x) (lo := lo) (hi := hi)
+      (e := 17) (by omega) (by omega) (by omega)
+    exact ⟨q1, q2, truncF32OfDyadic_mono 17 (bijNum_mono hm hxy)⟩
+
+/-- **Why the bounds of an `i` port must be integral** (the boundary of the assumption "int
+    parameters have int ranges"): with `min = 0.125`, `max = 100.125` the unchanged code sends
+    `(int)0.125 = 0` for the value 0, which is below `min`. -/
+theorem int_port_fractional_bound_counterexample :
+    ((⟨0, true, 1, 801⟩ : Cb).fire 0).val = .int 0 ∧ ¬((1 : Int) ≤ 8 * 0) := by
+  decide
+
+/-- **emitted_float_in_range_monotone** — the same clause for the `float` an `f` port is sent.
+    `f32OfDyadic num 17` encodes sign, significand and exponent computed by `f32Round |num| 17`;
+    that pair denotes `rnd |num| / 2^17` (`f32Round_value`), `rnd` being round-to-nearest-even to
+    24 significant bits.  The rounded value `rndZ num / 2^17` lies in `[min8/8, max8/8]` (both
+    ends are themselves `float`s) and does not decrease when `x` grows — for EVERY range the
+    protocol can spell (`|min8|, |max8| ≤ 2^23`).  (That the 32 bits printed are the IEEE-754
+    encoding of that sign/significand/exponent is tied to the code by the correspondence run.) -/
+theorem emitted_float_in_range_monotone {mn mx : Int} (h : mn ≤ mx) (h1 : -8388608 ≤ mn) (h2 : mx ≤ 8388608)
+    {x y : Nat} (hx : x < 16384) (_hy : y < 16384) (hxy : x ≤ y) :
+    16384 * mn ≤ rndZ (bijNum mn mx x) ∧ rndZ (bijNum mn mx x) ≤ 16384 * mx ∧
+    rndZ (bijNum mn mx x) ≤ rndZ (bijNum mn mx y) := by
+  obtain ⟨r1, r2⟩ := bijNum_range h (x := x) (by omega)
+  have hb := bijNum_bitLen h (x := x) (by omega) h1 h2
+  have p14 : (2 : Int) ^ 14 = 16384 := by decide
+  obtain ⟨q1, q2⟩ := rndZ_range (num := bijNum mn mx x) (lo := mn) (hi := mx) (t := 14) (by omega) (by omega)
+    (by omega)
+  exact ⟨by omega, by omega, rndZ_mono (bijNum_mono h hxy)⟩
+
+/-- **message_type_follows_port** — "(address, type, value)": the message a callback writes is
+    `'i'`-typed exactly when `generateNewBijection` classified the port as `'i'`, … -/
+theorem message_type_follows_port (c : Cb) (x : Nat) : (∃ v, (c.fire x).val = .int v) ↔ c.isInt = true := by
+  unfold Cb.fire
+  split
+  · rename_i h; simp [h.2.2]
+  · split <;> rename_i h' <;> simp [h']
+
+/-- … and `generateNewBijection` (`strstr(port.name, ":i")`) classifies a port as `'i'` exactly
+    when its signature accepts an `i` argument, for every name the protocol can declare:
+    `":i"`, `"::i"`, `":f:i"`, `":i:f"` → `'i'`;  `":f"`, `"::f"` → `'f'`; any padding of the name. -/
+theorem port_type_follows_signature (d : PortDecl) (hk : d.idx ≤ 9) : d.toSpec.isInt = d.sig.acceptsInt :=
+  PortDecl.toSpec_isInt d hk
+
+example : (⟨3, .oi, ['d', 'L'], 0, 800, 2, 30⟩ : PortDecl).toSpec = ⟨true, 0, 800⟩ := by decide
+example : ∃ vx vy : Int, ((⟨0, true, 8 * 64, 8 * 127⟩ : Cb).fire 0) = ⟨0, .int vx⟩ ∧
+    ((⟨0, true, 8 * 64, 8 * 127⟩ : Cb).fire 16383) = ⟨0, .int vy⟩ ∧ (64 : Int) ≤ vx ∧ vx ≤ 127 ∧ vx ≤ vy :=
+  emitted_int_in_range_monotone (by decide) (by decide) (by decide) (by decide) (by decide) (by decide) (by decide)
 
 /-- **fine_composes_14bit** — "(7-bit coarse, 14-bit when a fine controller has been learned
     for the same address)": when a coarse controller `c` and a fine controller `f` share a
@@ -122,6 +211,16 @@ theorem rt_acts_on_past_table {P h s} (t : Trace P h s) :
     ∃ n ∈ pastNrts h s, s.rt.binding = n.binding := by
   obtain ⟨⟨n, hn, hv⟩, _⟩ := views_are_past t
   exact ⟨n, hn, binding_of_viewOf hv⟩
+
+/-- **pending_queue_is_ring** — the realtime half's set of controllers whose learn request is under
+    way is, in the code, a ring of 32 `int` cells with two cursors (`PendingQueue`); the model's FIFO
+    list is a sound abstraction of it for sessions of ANY length: after any sequence of
+    `insert`/`pop` from the initial state the ring holds exactly the list (oldest first), and `has`
+    scans to the same answer as `List.contains`. -/
+theorem pending_queue_is_ring (ops : List QOp) :
+    RingOk (ops.foldl Ring.apply Ring.init) (ops.foldl pendApply []) ∧
+    ∀ x, (ops.foldl Ring.apply Ring.init).has x = (ops.foldl pendApply []).contains x :=
+  pending_list_refines_ring ops
 
 /-! ## Clauses about the learn handshake: hazard-free histories -/
 
@@ -518,6 +617,33 @@ theorem no_crash_counterexample : ¬ no_crash_statement := by
 
 theorem k2_trigger : triggerK1 exPorts k4Ops = false ∧ triggerK2 exPorts k4Ops = true := by decide
 
+/-! ## The other half of a 14-bit value across a `midi-bind` -/
+
+/-- the unrestricted form of `half_survives_bind` (neither proved nor refuted for histories with
+    hazards: after K2 two entries may own the same half of a slot) -/
+def half_survives_bind_statement : Prop :=
+  ∀ (P : List PortSpec) (h : List (Sys × Op)) (s : Sys), Trace P h s →
+    ∀ ns ans rest old, s.toRT = .bind ns ans :: rest → s.rt.storage = some old →
+    ∃ s' ns', step P s .deliverRT = some (s', []) ∧ s'.rt.storage = some ns' ∧ ns'.mapping = ns.mapping ∧
+      ∀ d ∈ ns.mapping, ∀ e ∈ old.mapping, d.id = e.id →
+        ∃ sv, old.values[e.slot]? = some sv ∧ halfAt d.slot d.coarse ns'.values = some (half e.coarse sv)
+
+/-- **half_survives_bind** (partial: hazard-free histories) — "(7-bit coarse, 14-bit when a fine
+    controller has been learned for the same address)" across snapshot changes: whenever the realtime
+    half replaces the snapshot it acts on (`midi-bind`, i.e. after every learn / unMap / clear), every
+    controller that is bound before and after keeps the 7-bit value it last sent, in the half
+    (coarse: upper, fine: lower) of the value slot the NEW snapshot gives it.  Together with
+    `fine_composes_14bit` (one snapshot) and `value_in_range_monotone` (the value sent is the
+    callback applied to the slot) this makes the `o` of `value_in_range_monotone` the last value of
+    the address's other controller for as long as both stay bound. -/
+theorem half_survives_bind_partial {P h s} (t : Trace P h s) (hf : HazardFree h) {ns ans rest old}
+    (hq : s.toRT = .bind ns ans :: rest) (hold : s.rt.storage = some old)
+    (hz : hazard s .deliverRT = false) :
+    ∃ s' ns', step P s .deliverRT = some (s', []) ∧ s'.rt.storage = some ns' ∧ ns'.mapping = ns.mapping ∧
+      ∀ d ∈ ns.mapping, ∀ e ∈ old.mapping, d.id = e.id →
+        ∃ sv, old.values[e.slot]? = some sv ∧ halfAt d.slot d.coarse ns'.values = some (half e.coarse sv) :=
+  half_survives_bind t hf hq hold hz
+
 /-! ## Non-vacuity: concrete hazard-free histories meet the hypotheses -/
 
 /-- coarse and fine controller learned for `p1`, values sent, coarse unmapped — delivered
@@ -534,5 +660,13 @@ example : (run exPorts Sys.init okOps).map (fun r => r.2.filter (· ≠ []) |>.m
 /-- the hypotheses of `learn_completes_partial` are met by the state after `map p0; deliver` -/
 example : let s := ((run exPorts Sys.init [.map 0 true, .deliverRT]).map (·.1)).getD Sys.init
     s.quiescent ∧ s.nrt.learnQ = [(0, true)] ∧ s.rt.binding 5 = none := by decide
+/-- the hypotheses of `half_survives_bind_partial` are met: controller 5 drives `p0` and has sent 77,
+    the snapshot that adds controller 6 for `p1` is the oldest message to the realtime half -/
+example : let ops := [Op.map 0 true, .deliverRT, .cc 5 1, .deliverNRT, .deliverRT, .cc 5 77, .map 1 true,
+      .deliverRT, .cc 6 1, .deliverNRT]
+    let s := ((run exPorts Sys.init ops).map (·.1)).getD Sys.init
+    (match s.toRT with | .bind ns _ :: _ => ns.mapping.length == 2 | _ => false) = true ∧
+    (s.rt.storage.map (fun st => st.values)) = some [77 * 128] ∧ hazard s .deliverRT = false ∧
+    triggerK1 exPorts ops = false ∧ triggerK2 exPorts ops = false := by decide
 
 end Rtosc.Midi
